@@ -98,13 +98,16 @@ class Service:
 
     def load_stored_state(self):
         """(re)load the config and the state of the service from the storage"""
-        if FileManager.check_sid_folder_exist(self.sid):
-            self.config = FileManager.read_service_config(self.sid)
+        if FileManager.check_sid_folder_exist(self.sid) and FileManager.check_service_meta_exist(self.sid):
             self.service_meta = FileManager.read_service_meta(self.sid)
-            self._load_sse_module()
-            self._load_config_object()
         else:  # NEW Service
             self.service_meta = {"state": SERVICE_STATE.NOT_EXISTS}
+
+        if self.get_current_service_state() != SERVICE_STATE.NOT_EXISTS:
+            # the config file is only complete once the state has left NOT_EXISTS
+            self.config = FileManager.read_service_config(self.sid)
+            self._load_sse_module()
+            self._load_config_object()
 
     async def start(self):
         await self._recv_message()
